@@ -7,6 +7,9 @@ QUERIES = [
   Q('counter_remove', H, 'h_counter_remove', unwind=4, models=['m_throw.c'], paths=True,
     bounds='N = 1..65535 pending, one real remove_shared_invalidated_thread_context on a registry holding that context',
     what='gate stays open iff contexts remain; registry entry erased'),
+  Q('counter_race', H, 'h_counter_race', unwind=16, models=['m_throw.c'], zero=[r'8Spinlock(4lock|6unlock)Ev', r'^_ZNSt6vectorISt10shared_ptrIN5quill2v96detail13ThreadContextEESaIS5_EE8_M_eraseE'], forbid=[r'^_ZNSt16_Sp_counted_baseILN9__gnu_cxx12_Lock_policyE2EE24_M_release_last_use'], vra={'MAXLOC': 4, 'MAXMSG': 14, 'MAXTHR': 2, 'MAXOBJ': 1}, timeout=280,
+    bounds='4 scheduler steps of thread exit (add_invalid_thread_context) / backend reclaim (real remove_shared_invalidated_thread_context; its spinlock is stubbed: only the backend touches the registry here) under the release/acquire shim, two exited contexts registered initially',
+    what='the counter equals the number of pending contexts under every interleaving and every legally stale non-RMW load (an update implemented as load+store instead of a read-modify-write loses increments)'),
 ]
 BOUNDS = 'up to 65535 pending exited threads; single step each'
 OUTSIDE = 'thread-local destructor timing (OS/runtime)'
